@@ -625,9 +625,10 @@ void slicer_run(lzma_stream *strm, const uint8_t *in, size_t in_size,
 	size_t in_pos = 0;
 	const uint64_t tin0 = strm->total_in, tout0 = strm->total_out;
 	uint64_t max_calls = plan->max_calls;
-	if (!max_calls) max_calls = 4 * (uint64_t)in_size + 1000000;
+	if (!max_calls) max_calls = 8 * (uint64_t)in_size + UINT64_C(400000000);
 	bool prev_noprog = false;
 	bool finishing = false;
+	unsigned consecutive_buf_errors = 0;
 	lzma_ret ret = LZMA_OK;
 	uint8_t canary[CANARY_LEN];
 	for (;;) {
@@ -718,6 +719,7 @@ void slicer_run(lzma_stream *strm, const uint8_t *in, size_t in_size,
 				}
 			}
 			prev_noprog = noprog;
+			consecutive_buf_errors = 0;
 		} else if (ret == LZMA_BUF_ERROR) {
 			if (!noprog) { res->protocol_violation = true; snprintf(res->why, sizeof(res->why), "LZMA_BUF_ERROR with progress"); break; }
 			if (!prev_noprog) { res->protocol_violation = true; snprintf(res->why, sizeof(res->why), "LZMA_BUF_ERROR on first stuck call (call %" PRIu64 ", avail_in=%zu avail_out=%zu)", res->calls, want_in, want_out); break; }
@@ -727,8 +729,14 @@ void slicer_run(lzma_stream *strm, const uint8_t *in, size_t in_size,
 			if (plan->mode == SL_RANDOM && (want_in < in_left || want_out == 0))
 				can_continue = true;
 			if (plan->out_limit && out->n >= plan->out_limit) { res->out_limit_hit = true; can_continue = false; }
+			// Both input and output space were offered and still nothing
+			// moved: the coder is stuck for good (e.g. MicroLZMA after
+			// comp_size bytes). Also bound consecutive BUF_ERRORs.
+			if (want_in > 0 && want_out > 0) can_continue = false;
+			if (++consecutive_buf_errors > 64) can_continue = false;
 			if (!can_continue) break;
 			prev_noprog = true; // still "consecutive" until progress is made
+			if (res->calls >= max_calls) { res->hit_call_limit = true; break; }
 			continue;
 		} else {
 			break; // STREAM_END or an error / informational code
